@@ -40,6 +40,8 @@ type Case struct {
 	// first reply is held "in progress" (slow reader) until the second wave
 	// has been received and answered by the implementation.
 	SlowWrite bool `json:"slowwrite,omitempty"`
+	// Flush: a history with Tflush (flush_test.go); Rounds is empty then.
+	Flush *FlushPlan `json:"flush,omitempty"`
 }
 
 const deadline = 30 * time.Second
@@ -498,6 +500,15 @@ func classify(c *Case) (nontrivial bool) {
 func execute(test string, c *Case) error {
 	hx.Journal(test, c)
 	hx.Eval()
+	if c.Flush != nil {
+		if flushNontrivial(c.Flush) {
+			b, _ := json.Marshal(c)
+			hx.NonTrivial(b)
+		}
+		labelFlush(c)
+		hx.Sample(test, c)
+		return verdict(runFlush(c))
+	}
 	if classify(c) {
 		b, _ := json.Marshal(c)
 		hx.NonTrivial(b)
@@ -519,7 +530,10 @@ func execute(test string, c *Case) error {
 		hx.Label("requests 1..5")
 	}
 	hx.Sample(test, c)
-	err := run(c)
+	return verdict(run(c))
+}
+
+func verdict(err error) error {
 	if h, ok := err.(hangErr); ok {
 		// a deadline: violation only if something is blocked inside go9p
 		if blocked := hx.BlockedInGo9p(); blocked != "" {
